@@ -104,6 +104,7 @@ macro_rules! as_ref_impl {
 
 macro_rules! chain_decls {
     (
+        list = $list:ident, with = $with:ident, surface = $surface:ident;
         $(
             #[nutype( $($attr:tt)* )]
             struct $name:ident ( $inner:tt );
@@ -190,9 +191,9 @@ macro_rules! chain_decls {
             }
         )*
 
-        pub const CHAIN_DECLS: &[&str] = &[ $( stringify!($name), )* ];
+        pub const $list: &[&str] = &[ $( stringify!($name), )* ];
 
-        pub fn with_chain<V: ChainVisitor>(idx: usize, v: V) -> V::Out {
+        pub fn $with<V: ChainVisitor>(idx: usize, v: V) -> V::Out {
             let mut i = 0usize;
             $(
                 if idx == i {
@@ -206,7 +207,7 @@ macro_rules! chain_decls {
 
         // The trait surface C11's chains presuppose.
         #[allow(dead_code)]
-        fn _assert_surface() {
+        fn $surface() {
             fn a<T: Clone + PartialEq + std::fmt::Display + std::str::FromStr + Serialize + DeserializeOwned>() {}
             $( a::<$name>(); )*
         }
@@ -251,6 +252,7 @@ fn float_text(rng: &mut Rng, lo: f64, hi: f64) -> String {
 }
 
 chain_decls! {
+    list = CHAIN_BASE, with = with_chain_base, surface = _assert_surface_base;
     // ------------------------------------------------------------------ strings: every order of {trim, lowercase|uppercase}
     #[nutype(sanitize(trim, lowercase), validate(not_empty, len_char_max = 12), default = "x",
         derive(Debug, Clone, PartialEq, Display, FromStr, TryFrom, Into, AsRef, Deref, Serialize, Deserialize, Default, Arbitrary))]
@@ -417,9 +419,22 @@ chain_decls! {
     text = |r| float_text(r, -10.0, 10.0);
 }
 
+mod matrix;
+pub use matrix::CHAIN_MATRIX;
+
+pub fn chain_names() -> Vec<&'static str> {
+    CHAIN_BASE.iter().chain(CHAIN_MATRIX.iter()).copied().collect()
+}
 pub fn n_chain_decls() -> usize {
-    CHAIN_DECLS.len()
+    CHAIN_BASE.len() + CHAIN_MATRIX.len()
 }
 pub fn chain_index(name: &str) -> Option<usize> {
-    CHAIN_DECLS.iter().position(|n| *n == name)
+    chain_names().iter().position(|n| *n == name)
+}
+pub fn with_chain<V: ChainVisitor>(idx: usize, v: V) -> V::Out {
+    if idx < CHAIN_BASE.len() {
+        with_chain_base(idx, v)
+    } else {
+        matrix::with_chain_matrix(idx - CHAIN_BASE.len(), v)
+    }
 }
